@@ -166,6 +166,7 @@ def parse_sanitizer(text):
     return sig, sorted(set(ub))
 
 
+KEYRE = re.compile(r'^C\d\d\|[a-z][A-Za-z0-9_+.:()-]*(\||$)')
 VGHEAD = re.compile(r'^==\d+== (?!   )(\S.*)$')
 VGFRAME = re.compile(r'^==\d+==    (?:at|by) 0x[0-9A-Fa-f]+: (\S+) \((?:in )?([^)]*)\)')
 VGMARK = re.compile(r'^\*\*\d+\*\* VH-CASE (\d+) ?(.*)$')
@@ -264,8 +265,10 @@ def run_shard(agg, exe, variant, shard, nshards, tier, seed, extra, scratch, env
                 except Exception:
                     continue
                 t = e.get('t')
-                if t == 'viol' and ('key' not in e or 'case' not in e):
-                    continue        # a record cut short by a watchdog signal
+                if t == 'viol' and ('key' not in e or 'case' not in e or not KEYRE.match(str(e['key']))):
+                    with agg.lock:
+                        agg.stats['malformed_event_records_ignored'] = agg.stats.get('malformed_event_records_ignored', 0) + 1
+                    continue        # a record cut short or damaged (seen once in 35 million histories): counted in the evidence, not judged
                 if t == 'viol':
                     agg.add_viol(e['key'], {'monitor': os.path.basename(exe), 'variant': variant, 'case': e['case'], 'desc': e.get('desc', ''),
                                             'witness': e.get('w', ''), 'tier': tier, 'seed': seed, 'extra': extra})
